@@ -330,6 +330,41 @@ def make_holes(shape, sizes):
     return q
 
 
+def make_seq(first, second, sizes):
+    """state across calls (since seed C19-i): the round trip of one rule, then - same process, another router - the round
+    trip of another rule; wildcard texts of both are solver variables (so equal values of different types occur)"""
+    n1 = len(first.wildcards)
+
+    def q(h0: str, h1: str, h2: str):
+        holes = [h0, h1, h2][:len(sizes)]
+        for i, (h, k) in enumerate(zip(holes, sizes)):
+            assume(len(h) <= k)
+            _restrict(first if i < n1 else second, h)
+        r = roundtrip(first, _path_of(first, holes[:n1]))
+        if r is not None:
+            return r
+        r = roundtrip(second, _path_of(second, holes[n1:]))
+        if r is not None:
+            return "after a round trip of rule %r with %r: %s" % (first.text, holes[:n1], r)
+        return None
+    return q
+
+
+SEQ_SHAPES = {
+    "float": _s("seq-float", L("price/"), W("amount", "float"), L("/eur"), ascii=True),
+    "int": _s("seq-int", L("article/"), W("id", "int"), ascii=True),
+    "w": _s("seq-w", L("tag/"), W("t")),
+    "re": _s("seq-re", L("code/"), W("c", "re", "[0-9]+x?"), flavour=2),
+    "float-int": _s("seq-float-int", L("scale/"), W("f", "float"), L("/page/"), W("n", "int"), ascii=True),
+    "path": _s("seq-path", L("d/"), W("p", "path"), flavour=2),
+}
+for _shape in SEQ_SHAPES.values():
+    Route(_shape.text)
+SEQ_PAIRS = [("float", "int", (2, 2), True), ("int", "float", (2, 2), True), ("float-int", "int", (1, 1, 1), True),
+             ("w", "int", (2, 2), False), ("re", "int", (2, 2), False), ("int", "re", (2, 2), False),
+             ("path", "float", (2, 2), False), ("float", "float", (2, 2), False), ("int", "int", (2, 2), False)]
+
+
 def make_skeleton(shape, where, prefix, rest, n):
     def q(t: str):
         assume(len(t) <= n)
@@ -365,6 +400,16 @@ def queries(tier):
                          "rule %s; every path (%s, slashes anywhere) of len <= %d" % (sh.text, alpha, n),
                          timeout=200 if not T else 900, expect_cover=expect, family="free",
                          config={"rule": sh.text, "literals": sh.literals, "path_len": n}))
+    for a, b, sizes, quick in SEQ_PAIRS:
+        if not (quick or T):
+            continue
+        sa, sb = SEQ_SHAPES[a], SEQ_SHAPES[b]
+        sizes = [k + 1 for k in sizes] if T and len(sizes) < 3 else list(sizes)
+        out.append(Q("seq/%s-then-%s" % (a, b), make_seq(sa, sb, sizes),
+                     "round trip of rule %s, then (same process, a router of its own) round trip of rule %s; symbolic text of "
+                     "len <= %s at the wildcards of both" % (sa.text, sb.text, " / ".join(map(str, sizes))),
+                     timeout=400 if not T else 1200, expect_cover=["matched"], family="seq",
+                     config={"first": sa.text, "second": sb.text, "hole_len": sizes}))
     for sh, where, rest, quick_tags, thorough_tags, deep_tail in SKELETONS:
         for tag, prefix, _tail in FLOAT_PREFIXES:
             if tag not in (thorough_tags if T else quick_tags):
